@@ -54,7 +54,7 @@ class DBusProperty:
                 pass
 
         if self.key is None:
-            self.key = self.interface + self.pname
+            self.key = (self.interface, self.pname)
 
         return instance._dbusProperties.get(self.key, None)
 
@@ -70,7 +70,7 @@ class DBusProperty:
                 pass
 
         if self.key is None:
-            self.key = self.interface + self.pname
+            self.key = (self.interface, self.pname)
 
         instance._dbusProperties[self.key] = value
 
